@@ -33,6 +33,7 @@ func init() {
 			{ID: "C05.R14", Floor: 2, Run: relationGuardCallee, Text: "'the table has a relation component' is Mask.ContainsAny(IsRelation) wherever a mask is tested against the set of relation types"},
 			{ID: "C05.R15", Floor: 4, Run: variadicTargetForwarded, Text: "a given target is forwarded: in a method with a variadic Entity parameter, nothing reachable from the `len(target) > 0` edge calls an internal creator with its has-target flag constant false"},
 			{ID: "C05.R16", Floor: 10, Run: c16r4, Text: "relation test by type identity (= C16.R4): a component is a relation exactly when its first field is the embedded marker type; a name-only test makes foreign types relations and then legal operations panic"},
+			{ID: "C05.R17", Floor: 4, Run: noTargetNoRelationFlag, Text: "without a target no relation is claimed: code that runs only when no target was given never passes an (ID, flag, Entity) relation triple with a flag other than the constant false"},
 		},
 	})
 }
